@@ -10,17 +10,27 @@ import autoray
 from .ring import Unsupported
 
 
+CONSTANTS = {}      # float value -> sympy symbol (module constants such as a stabilising epsilon)
+RADICANDS = []      # arguments of every sqrt taken during a trace
+ORACLE = None       # callable(lhs_expr, op, rhs_expr) -> bool : answers comparisons (domain guards) and logs the assumption
+
+
 class SS:
     __array_priority__ = 1000
     ndim = 0
     shape = ()
     size = 1
-    dtype = np.dtype("float64")
     requires_grad = True
 
-    def __init__(self, e, requires_grad=True):
+    def __init__(self, e, requires_grad=True, cplx=False):
         self.e = sp.sympify(e)
         self.requires_grad = requires_grad
+        self.cplx = bool(cplx) or self.e.has(sp.I)
+
+    @property
+    def dtype(self):
+        # a float scalar multiplied by a python complex becomes complex (numpy semantics the kernels rely on for casts)
+        return np.dtype("complex128") if self.cplx else np.dtype("float64")
 
     @staticmethod
     def _w(o):
@@ -33,7 +43,12 @@ class SS:
         if isinstance(o, (np.floating, np.integer)):
             o = o.item()
         if isinstance(o, float):
+            if o in CONSTANTS:
+                return CONSTANTS[o]
             return sp.nsimplify(o, rational=True) if o == round(o, 9) else sp.Float(o)
+        if isinstance(o, (complex, np.complexfloating)):
+            o = complex(o)
+            return SS._w(o.real) + sp.I * SS._w(o.imag)
         if isinstance(o, (int, sp.Expr)):
             return sp.sympify(o)
         return NotImplemented
@@ -42,7 +57,8 @@ class SS:
         w = SS._w(o)
         if w is NotImplemented:
             return NotImplemented
-        return SS(f(self.e, w))
+        c = self.cplx or isinstance(o, (complex, np.complexfloating)) or (isinstance(o, SS) and o.cplx)
+        return SS(f(self.e, w), cplx=c)
 
     def __add__(self, o):
         return self._bin(o, lambda a, b: a + b)
@@ -76,7 +92,48 @@ class SS:
         return SS(-self.e)
 
     def sqrt(self):
-        return SS(sp.sqrt(self.e))
+        RADICANDS.append(self.e)
+        return SS(sp.sqrt(self.e), cplx=self.cplx)
+
+    def exp(self):
+        return SS(sp.exp(self.e))
+
+    def conjugate(self):
+        # parameters are real and (checked separately) every radicand is non-negative on the domain: only I changes sign
+        return SS(self.e.subs(sp.I, -sp.I))
+
+    conj = conjugate
+
+    @property
+    def real(self):
+        return SS((self.e + self.e.subs(sp.I, -sp.I)) / 2)
+
+    @property
+    def imag(self):
+        return SS((self.e - self.e.subs(sp.I, -sp.I)) / (2 * sp.I))
+
+    def astype(self, *a, **k):
+        return self
+
+    def _cmp(self, o, op):
+        w = SS._w(o)
+        if w is NotImplemented:
+            return NotImplemented
+        if ORACLE is None:
+            raise Unsupported("comparison on a symbolic value")
+        return ORACLE(self.e, op, w)
+
+    def __le__(self, o):
+        return self._cmp(o, "<=")
+
+    def __ge__(self, o):
+        return self._cmp(o, ">=")
+
+    def __lt__(self, o):
+        return self._cmp(o, "<")
+
+    def __gt__(self, o):
+        return self._cmp(o, ">")
 
     def __bool__(self):
         raise Unsupported("branch on a symbolic value")
